@@ -1692,6 +1692,19 @@ impl SysComp {
                         if straddled {
                             mon.count("ack-threshold-straddled");
                         }
+                        // C15 at the point of consumption (and C02): every number the frame lists - one per
+                        // 4 payload bytes, 0 included - is retired from the log that held it; nothing else is
+                        for j in 0..nl {
+                            let mut got: Vec<i32> = w.links[j].verif_packet_log().iter().map(|(s, _)| *s).collect();
+                            let mut want = logs[j].clone();
+                            got.sort_unstable();
+                            want.sort_unstable();
+                            if got != want {
+                                let what = format!("link {}: after an SRTLA ACK datagram listing {:?} (arrival link {}) the packet log holds {:?}; retiring exactly the listed numbers gives {:?}", w.links[j].conn_id, &list[..list.len().min(12)], w.links[i].conn_id, &got[..got.len().min(12)], &want[..want.len().min(12)]);
+                                mon.fail("C15", "ack-frame-entry-not-consumed", what.clone());
+                                mon.fail("C02", "ack-frame-entry-not-consumed", what);
+                            }
+                        }
                         for j in 0..nl {
                             if w.links[j].window != gw[j] {
                                 let prop = if cfg.mode.is_classic() { "C10" } else { "C06" };
@@ -2579,7 +2592,9 @@ fn gen_case(rng: &mut Rng, tier: Tier, idx: usize) -> Vec<String> {
                         b[..2].copy_from_slice(&ty.to_be_bytes());
                         b
                     }
-                    0 => rng.bytes(1),
+                    // the empty packet is the reader task's receive-error sentinel (spawn_reader): the handler
+                    // drops it; it is neither a send failure nor silence, so it may not tear the link down
+                    0 => if rng.chance(1, 2) { Vec::new() } else { rng.bytes(1) },
                     1 => vec![0x90, 0x00],
                     2 => control_packet(*rng.pick(&[0x8000u16, 0x8005, 0x8001, 0x7fff, 0x9212]), 24, counter, rng),
                     3 => data_packet(seq, false, 64, 77_000_000 + counter, rng),
